@@ -118,7 +118,7 @@ theorem promote_enum (sc : Bool) (id : Nat) (b : Basic) (w : Option Nat) (hb : b
 /-! ### `typehasint` -/
 
 macro "hasint_case" v:ident : tactic => `(tactic| (
-  simp only [typehasint, shl64, shr64, allOnes64, ATy.size, Basic.size, ATy.issigned, Basic.issigned,
+  simp only [typehasint, ATy.stripEnum, ATy.basic.injEq, reduceCtorEq, if_false, shl64, shr64, allOnes64, ATy.size, Basic.size, ATy.issigned, Basic.issigned,
     Basic.issignedInit, b2n, range, rangeB, rangeBits, intTypeOf, isSigned, bits, decode, inRange]
   (try simp)
   first
@@ -134,6 +134,20 @@ theorem hasint_enum (sc : Bool) (id : Nat) (b : Basic) (hb : b.isInt = true) (hn
     (hv : v < 2 ^ 64) (sign : Bool) :
     typehasint sc (.enum id b) v sign = decide (inRange (range sc (.enum id b)) (decode v sign)) := by
   cases b <;> cases sc <;> cases sign <;> (first | (simp [Basic.isInt] at hb; done) | (exact absurd rfl hnb) | hasint_case v)
+
+/-- `_Bool` (and an enumerated type over it): exactly 0 and 1 (fix 08f8fa4) -/
+theorem hasint_bool (sc : Bool) (t : ATy) (ht : t = .basic .bool ∨ ∃ id, t = .enum id .bool) (v : Nat) (hv : v < 2 ^ 64)
+    (sign : Bool) : typehasint sc t v sign = decide (inRange (range sc t) (decode v sign)) := by
+  have h1 : t.stripEnum = .basic .bool := by rcases ht with rfl | ⟨id, rfl⟩ <;> rfl
+  have h2 : range sc t = (0, 1) := by
+    rcases ht with rfl | ⟨id, rfl⟩ <;> cases sc <;> simp [range, rangeB, rangeBits, intTypeOf, isSigned, bits]
+  simp only [typehasint, h1, if_true, h2, inRange, decode]
+  by_cases hs : sign = true ∧ v ≥ 2 ^ 63
+  · simp only [hs, and_self, if_true]
+    have : ¬ v ≤ 1 := by omega
+    simp [this]; omega
+  · simp only [hs, if_false]
+    by_cases h : v ≤ 1 <;> simp [h] <;> omega
 
 /-! ### `inttype` -/
 
